@@ -138,7 +138,7 @@ class World:
             cls.__module__ = self.modname
             cls._tcv_key = key
             self.classes[key] = cls
-        for name in ('Auto1', 'Auto2', 'Auto3', 'AutoSet', 'AutoBoth', 'AutoRaw', 'AutoVar', 'AutoTuple', 'Plain1', 'Hand1', 'MemBox', 'MemBag'):
+        for name in ('Auto1', 'Auto2', 'Auto3', 'AutoSet', 'AutoBoth', 'AutoRaw', 'AutoVar', 'AutoTuple', 'Plain1', 'Hand1', 'MemBox', 'MemBag', 'TitledJson'):
             mod.__dict__[name].__module__ = self.modname
         self.module = mod
         public = [n for n in mod.__dict__ if not n.startswith('_')]
@@ -408,6 +408,10 @@ class World:
                 (d / 'checkpoint').unlink()
                 data.finished()
             return data
+        if kind == 'json_titled':
+            d = self.module.TitledJson(f'result of {task.fullname}')
+            d.set_value(payload)
+            return d
         if kind == 'inmemory_empty':
             box = self.module.MemBag()
             box.payload = payload
@@ -431,7 +435,7 @@ class World:
 
     def decode(self, value, kind):
         """-> payload {'term':..., 'gen':...}; raises ValueError if the value is not a complete well-formed payload"""
-        if kind == 'json':
+        if kind in ('json', 'json_titled'):
             p = value
         elif kind == 'json_list':
             if not (isinstance(value, list) and len(value) == 1):
@@ -791,6 +795,7 @@ _KIND_ANN = {
     'continues': ('_h.tdata.ContinuesData', None),
     'inmemory': ('"MemBox"', None),
     'inmemory_empty': ('"MemBag"', None),
+    'json_titled': ('"TitledJson"', None),
     'generator0': ('_h.Generator', None),
     'lon0': ('list', '_h.tdata.ListOfNumpyData'),
     'dir0': ('_h.tdata.DirData', None),
@@ -799,7 +804,7 @@ _KIND_ANN = {
 _WRONG = {
     'json': (1, 2), 'json_list': {'a': 1}, 'numpy': [1, 2], 'pandas': {'a': 1}, 'series': [1], 'generator': None,
     'generator_lazy': None, 'list_of_numpy': {'a': 1}, 'dir': {'a': 1}, 'continues': {'a': 1}, 'inmemory': 5,
-    'generator0': None, 'lon0': {'a': 1}, 'dir0': {'a': 1}, 'dirlink': {'a': 1}, 'inmemory_empty': 5,
+    'generator0': None, 'lon0': {'a': 1}, 'dir0': {'a': 1}, 'dirlink': {'a': 1}, 'inmemory_empty': 5, 'json_titled': {'a': 1},
 }
 
 _OBJECT_CLASSES = '''
@@ -807,6 +812,15 @@ class MemBox(_h.tdata.InMemoryData):
     def __init__(self):
         super().__init__()
         self.payload = None
+
+
+class TitledJson(_h.tdata.JSONData):
+    """a data class of the user's own, created inside run(); its constructor has an OPTIONAL argument"""
+    DATA_TYPES = []   # chosen explicitly by the return annotation only, never as the handler of plain dicts
+
+    def __init__(self, title='untitled'):
+        super().__init__()
+        self.title = title
 
 
 class MemBag(MemBox):
